@@ -470,3 +470,35 @@ Theorem C01_source_do_call_row : forall m k purity hapx female build ts variants
   = Some (mk_dc_out (match use_purity purity with Some _ => ratio_of op | None => None end)
                     l' (Some a) (Some cn) (if has_baf then b' else None) (if has_baf then Some (c1, c2) else None)).
 Proof. exact Proofs.FnCallDoCallRow.source_do_call_row. Qed.
+
+(* ---- [loop ties e1] source tie of absolute_expect / absolute_reference (Gen/FnCallExpectRef.v, WHOLE functions,
+   regenerated from the Python source on every run; the two columns of get_as_dframe_and_set_reference_and_expect_copies'
+   table are function-typed inputs).  As written: absolute_expect fixes is_haploid_x_reference = True and hands back the
+   `expect` column, absolute_reference fixes is_sample_female = True and hands back the `reference` column ... *)
+From CNV Require Gen.FnCallExpectRef Proofs.FnCallExpectRef.
+Theorem C01_source_expect_ref_calls : forall cn k b flag (R E : Z -> Z -> bool -> Z -> bool -> Z),
+  Gen.FnCallExpectRef.fn_absolute_expect cn k b flag R E = E cn k true b flag /\
+  Gen.FnCallExpectRef.fn_absolute_reference cn k b flag R E = R cn k flag b true.
+Proof. exact Proofs.FnCallExpectRef.source_expect_ref_calls. Qed.
+
+(* ... so with the callee's generated column code in place of the columns, absolute_expect IS the x and absolute_reference
+   the r of ref_expect on every class of row, whatever the reference sex resp. the sample sex (the fixed flag is immaterial) *)
+Theorem C01_source_absolute_expect : forall cn k b female hapx has_build c,
+  (c = ParY -> has_build = true) ->
+  Gen.FnCallExpectRef.fn_absolute_expect cn k b female
+    (Proofs.FnCallExpectRef.gen_reference_col (Proofs.FnCallRefExpect.is_x c) (Proofs.FnCallRefExpect.is_y c) has_build
+                                              (Proofs.FnCallRefExpect.is_pary c))
+    (Proofs.FnCallExpectRef.gen_expect_col (Proofs.FnCallRefExpect.is_x c) (Proofs.FnCallRefExpect.is_y c) has_build
+                                           (Proofs.FnCallRefExpect.is_pary c))
+  = snd (ref_expect k hapx female c).
+Proof. exact Proofs.FnCallExpectRef.source_absolute_expect. Qed.
+
+Theorem C01_source_absolute_reference : forall cn k b hapx female has_build c,
+  (c = ParY -> has_build = true) ->
+  Gen.FnCallExpectRef.fn_absolute_reference cn k b hapx
+    (Proofs.FnCallExpectRef.gen_reference_col (Proofs.FnCallRefExpect.is_x c) (Proofs.FnCallRefExpect.is_y c) has_build
+                                              (Proofs.FnCallRefExpect.is_pary c))
+    (Proofs.FnCallExpectRef.gen_expect_col (Proofs.FnCallRefExpect.is_x c) (Proofs.FnCallRefExpect.is_y c) has_build
+                                           (Proofs.FnCallRefExpect.is_pary c))
+  = fst (ref_expect k hapx female c).
+Proof. exact Proofs.FnCallExpectRef.source_absolute_reference. Qed.
